@@ -226,7 +226,7 @@ def run_task(task):
 
 
 def plan(tier, seed):
-    total = 3000 if tier == "quick" else 40000
+    total = 4800 if tier == "quick" else 40000
     W = 16
     return [{"n": total // W, "seed": seed * 1000 + w, "shrink": 150 if tier == "quick" else 1500}
             for w in range(W)]
